@@ -137,7 +137,7 @@ def scenario(pa, pb, topic_w="T", topic_r="T", reader_first=False):
 
 
 PART_CORPUS = [
-    # DESIGN 7.1 D20
+    # DESIGN 7.1 D20 (D20a repaired: [] matches the empty name and *; D20b, D20c open: A* matches A?, a+ matches aa)
     scenario([], ["%e"]), scenario([], ["*"]), scenario(["%e"], ["*"]), scenario(["A*"], ["A?"]), scenario(["a+"], ["aa"]),
     scenario([], []), scenario(["A"], ["B", "A"]), scenario(["A"], ["B"]), scenario(["A1"], ["?1"]), scenario(["[a-b]1"], ["b1", "c1"]),
     scenario(["A"], ["A"], topic_w="T", topic_r="U"),
@@ -207,11 +207,11 @@ def partition_oracle(case, out):
                          f"the DDS partition rule says {'match' if want else 'no match'}"}
             if tw == tr:
                 if n == 0 and want and (not pa) != (not pb):
-                    v["cause"] = CAUSE_EMPTY
-                elif n == 1 and not want and any("+" in x for x in pa + pb):
-                    v["cause"] = CAUSE_PLUS
+                    v["cause"] = CAUSE_EMPTY            # D20a (repaired: a label only, nothing is suppressed)
                 elif n == 1 and not want and any(is_pattern(x) for x in pa) and any(is_pattern(x) for x in pb):
-                    v["cause"] = CAUSE_PATTERN
+                    v["cause"] = CAUSE_PATTERN          # D20b (open)
+                elif n == 1 and not want and any("+" in x for x in pa + pb):
+                    v["cause"] = CAUSE_PLUS             # D20c (open)
             viol.append(v)
     return viol
 
